@@ -329,3 +329,58 @@ class MiddleWeighted(Contract):
 CONTRACTS += [MiddleWeighted()]
 ASSUMPTIONS += ["A-DIST-ADD (sum of the weights): interval probabilities are additive, M0(a,b)+M0(b,c) == M0(a,c) for a<=b<=c, and M0(a,a) == 0 (axioms of the uninterpreted M0 in lemma total-mass)",
                 "A-DIST-CDF (get_middle_weighted): cdf strictly increasing on the interval, ppf its exact inverse on [cdf(a), cdf(b)]; finite interval ends"]
+
+
+# --------------------------------------------------------------------------- _set_nodes_weights_evals: nodes, weights and model values belong to ONE combined rule
+# Expectation and variance of the node-based path are sum_i w_i f(x_i)^k over (self.nodes, self.weights, self.f_evals).  They are the moments of the current sparse
+# grid only if, after this function, the three sequences have one length and f_evals[i] is the model value AT nodes[i] -- whatever an earlier (possibly aborted)
+# query left in the object.
+from pyvc.values import Opaque  # noqa: E402
+from pyvc import prelude as P_  # noqa: E402
+
+MODEL = z3.Function("f_model", P_.U, P_.U)
+
+
+class GetPointsAndWeights(Contract):
+    file, qualname = "sparseSpACE/StandardCombi.py", "StandardCombi.get_points_and_weights"
+    trusted = True
+    note = "the exposed combined rule of the current sparse grid: as many weights as points (its content: C05 / layer B)"
+
+    def inputs(self, S):
+        return {"self": Obj("StandardCombi", {})}
+
+    def result(self, S, env):
+        n = S.int("rule.n")
+        S.assume(n >= 0)
+        return Seq("tuple", [S.seq("rule.points", n, P_.U, kind="array"), S.seq("rule.weights", n, R, kind="array")])
+
+
+class SetNodesWeightsEvals(Contract):
+    file, qualname = "sparseSpACE/GridOperation.py", "UncertaintyQuantification._set_nodes_weights_evals"
+
+    def inputs(self, S):
+        n0, m0, k0 = S.int("old.nodes"), S.int("old.weights"), S.int("old.evals")
+        S.assume(z3.And(n0 >= 0, m0 >= 0, k0 >= 0))
+        op = Obj("UncertaintyQuantification", dict(nodes=S.seq("nodes0", n0, P_.U, kind="array"), weights=S.seq("weights0", m0, R, kind="array"),
+                                                   f_evals=S.seq("f_evals0", k0, P_.U, kind="list"), f_model=Func("spec", MODEL)))
+        return {"self": op, "combiinstance": Obj("StandardCombi", {}), "scale_weights": False}
+
+    def post(self, S, old, env, result):
+        f = env["self"].fields
+        ok = all(isinstance(f.get(k), Seq) for k in ("nodes", "weights", "f_evals"))
+        if not ok:
+            return [Cl("rule-stored", False, prop=True)]
+        nd, w, ev = [f[k].to_symbolic() for k in ("nodes", "weights", "f_evals")]
+        Vz = lambda x: z3.IntVal(x) if isinstance(x, int) else x  # noqa
+        i = z3.Int("ni")
+        return [Cl("rule-stored", True, prop=True),
+                Cl("nodes-weights-and-model-values-have-one-length", z3.And(Vz(nd.len()) == Vz(w.len()), Vz(ev.len()) == Vz(nd.len())), prop=True),
+                Cl("model-values-are-the-values-at-the-stored-nodes", z3.ForAll([i], z3.Implies(z3.And(i >= 0, i < Vz(nd.len())), z3.Select(ev.arr, i) == MODEL(z3.Select(nd.arr, i)))), prop=True)]
+
+    @staticmethod
+    def model_to_input(model):
+        return {"kind": "C15.nodes_after_fault"}
+
+
+CONTRACTS += [GetPointsAndWeights(), SetNodesWeightsEvals()]
+ASSUMPTIONS += ["_set_nodes_weights_evals: the model is a pure function of the node (uninterpreted f_model); get_points_and_weights returns as many weights as points (trusted); scale_weights False"]
